@@ -100,6 +100,10 @@ class ObjectCodeGenerator:
             f"({', '.join(self._data.super_interfaces)})" if self._data.super_interfaces else ""
         )
 
+        if self._data.serialize.empty:
+            # An object without instructions writes nothing, but serialize() still needs a body.
+            self._data.serialize.add_line('pass')
+
         result = (
             CodeBlock()
             .add_line(f"class {simple_name}{super_interfaces}:")
